@@ -405,7 +405,7 @@ def run(rep, tier, seed):
     jobs.sort(key=lambda j: -(8 ** j[3]) / j[7])
     n = ops = 0
     fails = []
-    for k, o, fl in pmap(_work, jobs):
+    for k, o, fl in dyn.pmap_w('work', _work, jobs):
         n += k
         ops += o
         fails.extend(fl)
@@ -460,3 +460,6 @@ def run(rep, tier, seed):
         rule='case = one operation sequence (action indices, resets, representation switches) on a gym-level environment and '
         'on a twin inner environment with the same seed; every returned value is compared',
     )
+
+
+WORKERS = {'work': _work}
